@@ -238,6 +238,11 @@ def mon_report_fifo(run):
             out.append((sig(run, kind="reports-not-fifo-prefix"), {"worker": n, "sent": s[:12], "forwarded": g[:12]}))
         elif run.finished_ok() and n in run.summary["exited"] and n not in run.writeoff and len(g) != len(s):
             out.append((sig(run, kind="reports-missing-at-end"), {"worker": n, "sent": len(s), "forwarded": len(g)}))
+    # the number of collected tests made known to the controller's session = the size of a collection some worker reported
+    tc = run.summary.get("testscollected")
+    handled = [o[1] for _k, o in run.outs if o[0] == "collfinished"]
+    if tc is not None and handled and tc not in {len(run.coll[n]) for n in handled if n in run.coll}:
+        out.append((sig(run, kind="testscollected-wrong"), {"testscollected": tc, "collections": {n: len(run.coll[n]) for n in handled if n in run.coll}}))
     keys = collections.Counter()
     sent_keys = set()
     for _k, n, ev in run.wevs:
